@@ -67,6 +67,7 @@ type Unit struct {
 	BuildErr  string // filled by Build when this package fails
 	VetErr    string
 	NoGlue    bool
+	Variant   string // both | server | client (defaults to the workspace's)
 }
 
 // New creates a workspace module in dir.
@@ -106,6 +107,17 @@ replace verif/harness => %s
 // Add runs the plugins for the schema and writes the package. param is passed to go-http
 // (e.g. "generate_mock=true"). clientFirst controls the write order in variant "both".
 func (w *Workspace) Add(s *schema.Schema, param string, clientFirst bool) (*Unit, error) {
+	return w.AddVariant(s, param, clientFirst, "")
+}
+
+// AddVariant is Add with the unit's own build variant ("" = the workspace's): in a workspace of variant
+// "both" a unit may be built from protoc-gen-go-http alone ("server") or protoc-gen-go-client alone
+// ("client"), the layout of a project that uses one of the two plugins. Files both plugins emit under the
+// same name otherwise stand in for each other.
+func (w *Workspace) AddVariant(s *schema.Schema, param string, clientFirst bool, variant string) (*Unit, error) {
+	if variant == "" {
+		variant = w.Variant
+	}
 	req, err := schema.Request("", s)
 	if err != nil {
 		return nil, err
@@ -149,8 +161,9 @@ func (w *Workspace) Add(s *schema.Schema, param string, clientFirst bool) (*Unit
 	if e := u.PluginErr[plugin.ProtoGo]; e != "" {
 		return nil, fmt.Errorf("protoc-gen-go rejected schema %s (generator bug): %s", s.ID, e)
 	}
+	u.Variant = variant
 	order := []string{}
-	switch w.Variant {
+	switch variant {
 	case "server":
 		order = []string{plugin.GoHTTP}
 	case "client":
@@ -243,7 +256,7 @@ func (w *Workspace) WriteGlue(u *Unit) error {
 	if err != nil {
 		return err
 	}
-	src, err := glueSource(req, u, w.Variant)
+	src, err := glueSource(req, u, u.Variant)
 	if err != nil {
 		return err
 	}
